@@ -1,3 +1,1232 @@
-/* placeholder, replaced when the mode is implemented */
+/*
+ * m_sim.c - the simulation scenario interpreter (C04-C14, C10).
+ *
+ * A scenario declares objects (resources, pools, buffers, object queues,
+ * priority queues, conditions with observed guards), processes with scripts of
+ * operations, and dispatcher-level commands scheduled as plain events. The
+ * interpreter runs it against the real library and writes a trace:
+ *
+ *   C seq evno time pid op# name args..      call of an operation
+ *   R seq evno time pid op# ret outs..       its return (ret = signal value)
+ *   K seq evno time pid op# name reason      skipped: documented precondition false
+ *   X seq evno time name args.. -> result    dispatcher-level command executed
+ *   B seq evno time pid run#                 process function entered
+ *   Z seq evno time pid how value            process function about to end (return/exit)
+ *   L seq evno time pid obj amount           process learned (on PREEMPTED) that it lost a holding
+ *   P seq evno time cond pid result          the library evaluated a harness predicate
+ *   G seq evno time cond why obj pid:0|1 ... ground truth: predicates of all waiters of cond, evaluated by the harness
+ *   T seq evno time guard                    signal tap: the library signalled this guard
+ *   U seq evno time k                        user event k executed
+ *   S evno time key=value ...                snapshot after each dispatched event (only changed keys)
+ *   Q evno time                              quiescence: the event queue is empty
+ *   H obj n x0 t0 x1 t1 ...                  recorded history at quiescence (hex floats)
+ *   M obj mean                               time-weighted mean from cmb_timeseries_summarize
+ *   D                                        teardown starts (nothing after this is judged except crashes)
+ *   V family message                         invariant over the library's own queries violated
+ *
+ * `evno` counts dispatched events: a call whose C and R records carry the same
+ * evno never yielded. Oracles live in Python (pbt/simtrace.py).
+ */
+#include <inttypes.h>
+#include <math.h>
+#include <stdarg.h>
+#include <stdbool.h>
+#include <stdlib.h>
+#include <string.h>
+
+#include "cmb_buffer.h"
+#include "cmb_condition.h"
+#include "cmb_event.h"
+#include "cmb_logger.h"
+#include "cmb_objectqueue.h"
+#include "cmb_priorityqueue.h"
+#include "cmb_process.h"
+#include "cmb_resource.h"
+#include "cmb_resourcepool.h"
+#include "cmb_timeseries.h"
+#include "cmb_wtdsummary.h"
+
 #include "cimx.h"
-int mode_sim(char *text, FILE *trace) { (void)text; fprintf(trace, "F mode sim not implemented\n"); return CIMX_PARSE_ERROR; }
+
+#define MAXOBJ 16
+#define MAXPROC 64
+#define MAXCTR 8
+#define EVENT_CEILING 200000u
+
+enum okind { O_RES, O_POOL, O_BUF, O_OQ, O_PQ, O_COND };
+
+struct sobj {
+    enum okind kind;
+    char name[24];
+    void *ptr;
+    uint64_t cap;
+    uint64_t *handles;          /* pq: handles issued so far */
+    int nh, caph;
+    bool recording;
+    int tap_of;                 /* cond used as tap: index of ... unused */
+};
+
+enum predkind { PR_FALSE, PR_TRUE, PR_CTR, PR_RESFREE, PR_POOLAVAIL, PR_BUFLEVEL, PR_QLEN };
+
+struct spred {
+    enum predkind kind;
+    int obj;                    /* object index or counter index */
+    int64_t arg;
+    int pid;
+    int cond;                   /* condition waited on, -1 if none */
+};
+
+enum opcode {
+    OP_HOLD, OP_YIELD, OP_ACQUIRE, OP_PREEMPT, OP_PACQ, OP_PPRE, OP_BPUT, OP_BGET,
+    OP_OPUT, OP_OGET, OP_KPUT, OP_KGET, OP_CWAIT, OP_WAIT_PROC, OP_WAIT_EV,
+    OP_RELEASE, OP_PREL, OP_TIMER_ADD, OP_TIMER_SET, OP_TIMER_CANCEL, OP_TIMERS_CLEAR,
+    OP_KCANCEL, OP_KREPRIO, OP_KPOS, OP_OPOS, OP_CSIGNAL, OP_CCANCEL, OP_CREMOVE, OP_CTRSET,
+    OP_INTERRUPT, OP_RESUME, OP_STOP, OP_SETPRIO, OP_START, OP_USCHED, OP_UCANCEL,
+    OP_URESCHED, OP_REC_ON, OP_REC_OFF, OP_FILL_TO, OP_EXIT, OP_RETURN, OP_NOP, OP__COUNT
+};
+
+static const char *const opnames[OP__COUNT] = {
+    "hold", "yield", "acquire", "preempt", "pacq", "ppre", "bput", "bget",
+    "oput", "oget", "kput", "kget", "cwait", "wait_proc", "wait_ev",
+    "release", "prel", "timer_add", "timer_set", "timer_cancel", "timers_clear",
+    "kcancel", "kreprio", "kpos", "opos", "csignal", "ccancel", "cremove", "ctrset",
+    "interrupt", "resume", "stop", "setprio", "start", "usched", "ucancel",
+    "uresched", "rec_on", "rec_off", "fill_to", "exit", "return", "nop"
+};
+
+struct sop {
+    enum opcode code;
+    int obj;            /* object index */
+    int tgt;            /* process index */
+    int64_t i1, i2;     /* signal / priority / value / counts */
+    uint64_t u1;        /* amounts */
+    double d1;          /* durations */
+    struct spred pred;
+};
+
+struct sproc {
+    struct cmb_process *p;
+    char name[16];
+    int64_t prio0;
+    double start;
+    int64_t start_prio;
+    struct sop *ops;
+    int nops, capops;
+    int pc;
+    int runs;
+    int blocked_op;                 /* op# of the blocking call in progress, -1 if none */
+    enum opcode blocked_code;
+    bool mine_res[MAXOBJ];          /* told SUCCESS, not told otherwise */
+    uint64_t mine_pool[MAXOBJ];
+    uint64_t *timers;
+    int ntimers, captimers;
+    uint64_t amnt;                  /* in-flight *amntp of a buffer call */
+    bool amnt_active;
+    struct spred pred;              /* predicate of the cwait in progress */
+    bool is_tap;
+};
+
+struct scmd {
+    double t;
+    int64_t prio;
+    struct sop op;
+};
+
+struct uevent { uint64_t handle; };
+
+static FILE *tf;
+static uint64_t seqno, evno;
+static struct sobj objs[MAXOBJ];
+static int nobjs;
+static struct sproc procs[MAXPROC];
+static int nprocs;
+static int nuserprocs;            /* procs[0..nuserprocs) are scripted, the rest are signal taps */
+static struct scmd *cmds;
+static int ncmds, capcmds;
+static struct uevent *uevs;
+static int nuevs, capuevs;
+static int64_t counters[MAXCTR];
+static double start_time;
+/* observation links: cond index observes guard (object index, side) */
+struct obslink { int cond; int obj; int side; bool via_subscribe; };
+static struct obslink links[64];
+static int nlinks;
+/* taps: one per observed guard */
+struct tap { int obj; int side; struct cmb_condition *cv; int pid; };
+static struct tap taps[32];
+static int ntaps;
+static bool in_teardown;
+
+static void tr(const char *fmt, ...) __attribute__((format(printf, 1, 2)));
+static void tr(const char *fmt, ...)
+{
+    va_list ap;
+    va_start(ap, fmt);
+    vfprintf(tf, fmt, ap);
+    va_end(ap);
+}
+
+#define HDR(ch, pid, opi) tr("%c %" PRIu64 " %" PRIu64 " %a %d %d", ch, ++seqno, evno, cmb_time(), pid, opi)
+
+static int current_pid(void)
+{
+    const struct cmb_process *me = cmb_process_current();
+    if (me == NULL) return -1;
+    for (int k = 0; k < nprocs; k++) if (procs[k].p == me) return k;
+    return -2;
+}
+
+/* ------------------------------------------------------------ objects -- */
+
+static struct cmb_resourceguard *guard_of(const int obj, const int side)
+{
+    struct sobj *o = &objs[obj];
+    switch (o->kind) {
+    case O_RES: return &((struct cmb_resource *)o->ptr)->guard;
+    case O_POOL: return &((struct cmb_resourcepool *)o->ptr)->guard;
+    case O_BUF: return side ? &((struct cmb_buffer *)o->ptr)->rear_guard
+                            : &((struct cmb_buffer *)o->ptr)->front_guard;
+    case O_OQ: return side ? &((struct cmb_objectqueue *)o->ptr)->rear_guard
+                           : &((struct cmb_objectqueue *)o->ptr)->front_guard;
+    case O_PQ: return side ? &((struct cmb_priorityqueue *)o->ptr)->rear_guard
+                           : &((struct cmb_priorityqueue *)o->ptr)->front_guard;
+    case O_COND: return &((struct cmb_condition *)o->ptr)->guard;
+    }
+    return NULL;
+}
+
+static bool eval_pred(const struct spred *pr)
+{
+    switch (pr->kind) {
+    case PR_FALSE: return false;
+    case PR_TRUE: return true;
+    case PR_CTR: return counters[pr->obj] >= pr->arg;
+    case PR_RESFREE: return cmb_resource_available(objs[pr->obj].ptr) > 0u;
+    case PR_POOLAVAIL: return (int64_t)cmb_resourcepool_available(objs[pr->obj].ptr) >= pr->arg;
+    case PR_BUFLEVEL: return (int64_t)cmb_buffer_level(objs[pr->obj].ptr) >= pr->arg;
+    case PR_QLEN:
+        if (objs[pr->obj].kind == O_OQ) return (int64_t)cmb_objectqueue_length(objs[pr->obj].ptr) >= pr->arg;
+        return (int64_t)cmb_priorityqueue_length(objs[pr->obj].ptr) >= pr->arg;
+    }
+    return false;
+}
+
+/* Ground truth: the harness evaluates the predicate of every process that is
+ * inside cmb_condition_wait on this condition right now. */
+static void log_ground(const int cond, const char *why, const char *objname)
+{
+    bool any = false;
+    for (int k = 0; k < nprocs; k++) {
+        if (procs[k].blocked_op >= 0 && procs[k].blocked_code == OP_CWAIT && procs[k].pred.cond == cond) {
+            if (!any) {
+                tr("G %" PRIu64 " %" PRIu64 " %a %s %s %s", ++seqno, evno, cmb_time(), objs[cond].name, why, objname);
+                any = true;
+            }
+            tr(" %d:%d", k, eval_pred(&procs[k].pred) ? 1 : 0);
+        }
+    }
+    if (any) tr("\n");
+}
+
+/* Ground truth after an operation that changed the state of obj: for every
+ * condition observing one of its guards */
+static void log_ground_for_object(const int obj, const char *why)
+{
+    for (int l = 0; l < nlinks; l++) {
+        if (links[l].obj == obj) {
+            bool seen = false;
+            for (int m = 0; m < l; m++) if (links[m].obj == obj && links[m].cond == links[l].cond) seen = true;
+            if (!seen) log_ground(links[l].cond, why, objs[obj].name);
+        }
+    }
+}
+
+static bool harness_demand(const struct cmb_condition *cnd, const struct cmb_process *prc, const void *ctx)
+{
+    (void)cnd; (void)prc;
+    const struct spred *pr = ctx;
+    const bool r = eval_pred(pr);
+    tr("P %" PRIu64 " %" PRIu64 " %a %s %d %d\n", ++seqno, evno, cmb_time(),
+       (pr->cond >= 0) ? objs[pr->cond].name : "?", pr->pid, r ? 1 : 0);
+    return r;
+}
+
+static bool tap_demand(const struct cmb_condition *cnd, const struct cmb_process *prc, const void *ctx)
+{
+    (void)cnd; (void)prc;
+    const struct tap *tp = ctx;
+    if (in_teardown) return false;
+    tr("T %" PRIu64 " %" PRIu64 " %a %s.%d\n", ++seqno, evno, cmb_time(), objs[tp->obj].name, tp->side);
+    for (int l = 0; l < nlinks; l++) {
+        if (links[l].obj == tp->obj && links[l].side == tp->side) log_ground(links[l].cond, "tap", objs[tp->obj].name);
+    }
+    return false;
+}
+
+static void *tap_main(struct cmb_process *me, void *ctx)
+{
+    (void)me;
+    struct tap *tp = ctx;
+    for (;;) {
+        (void)cmb_condition_wait(tp->cv, tap_demand, tp);
+    }
+    return NULL;
+}
+
+/* ---------------------------------------------------------- recording -- */
+
+static void rec_switch(const int obj, const bool on)
+{
+    struct sobj *o = &objs[obj];
+    switch (o->kind) {
+    case O_RES: on ? cmb_resource_start_recording(o->ptr) : cmb_resource_stop_recording(o->ptr); break;
+    case O_POOL: on ? cmb_resourcepool_start_recording(o->ptr) : cmb_resourcepool_stop_recording(o->ptr); break;
+    case O_BUF: on ? cmb_buffer_recording_start(o->ptr) : cmb_buffer_recording_stop(o->ptr); break;
+    case O_OQ: on ? cmb_objectqueue_recording_start(o->ptr) : cmb_objectqueue_recording_stop(o->ptr); break;
+    case O_PQ: on ? cmb_priorityqueue_recording_start(o->ptr) : cmb_priorityqueue_recording_stop(o->ptr); break;
+    default: break;
+    }
+    o->recording = on;
+}
+
+static struct cmb_timeseries *history_of(const int obj)
+{
+    struct sobj *o = &objs[obj];
+    switch (o->kind) {
+    case O_RES: return cmb_resource_history(o->ptr);
+    case O_POOL: return cmb_resourcepool_get_history(o->ptr);
+    case O_BUF: return cmb_buffer_history(o->ptr);
+    case O_OQ: return cmb_objectqueue_history(o->ptr);
+    case O_PQ: return cmb_priorityqueue_history(o->ptr);
+    default: return NULL;
+    }
+}
+
+static double current_value(const int obj)
+{
+    struct sobj *o = &objs[obj];
+    switch (o->kind) {
+    case O_RES: return (double)cmb_resource_in_use(o->ptr);
+    case O_POOL: return (double)cmb_resourcepool_in_use(o->ptr);
+    case O_BUF: return (double)cmb_buffer_level(o->ptr);
+    case O_OQ: return (double)cmb_objectqueue_length(o->ptr);
+    case O_PQ: return (double)cmb_priorityqueue_length(o->ptr);
+    default: return 0.0;
+    }
+}
+
+/* ----------------------------------------------------------- snapshot -- */
+
+#define MAXSLOTS 512
+static char slot_name[MAXSLOTS][24];
+static char slot_val[MAXSLOTS][96];
+static int nslots;
+static char snapbuf[16384];
+static size_t snaplen;
+
+static void snap_put(const char *name, const char *fmt, ...) __attribute__((format(printf, 2, 3)));
+static void snap_put(const char *name, const char *fmt, ...)
+{
+    char v[96];
+    va_list ap;
+    va_start(ap, fmt);
+    vsnprintf(v, sizeof v, fmt, ap);
+    va_end(ap);
+    int s = -1;
+    for (int k = 0; k < nslots; k++) if (strcmp(slot_name[k], name) == 0) { s = k; break; }
+    if (s < 0) {
+        if (nslots == MAXSLOTS) return;
+        s = nslots++;
+        snprintf(slot_name[s], sizeof slot_name[s], "%s", name);
+        slot_val[s][0] = '\1';
+    }
+    if (strcmp(slot_val[s], v) != 0) {
+        snprintf(slot_val[s], sizeof slot_val[s], "%s", v);
+        if (snaplen < sizeof snapbuf - 128) {
+            snaplen += (size_t)snprintf(snapbuf + snaplen, sizeof snapbuf - snaplen, " %s=%s", name, v);
+        }
+    }
+}
+
+static void snap_invalidate(const char *name)
+{
+    for (int k = 0; k < nslots; k++) if (strcmp(slot_name[k], name) == 0) slot_val[k][0] = '\1', slot_val[k][1] = '\0';
+}
+
+static void vline(const char *family, const char *fmt, ...) __attribute__((format(printf, 2, 3)));
+static void vline(const char *family, const char *fmt, ...)
+{
+    va_list ap;
+    va_start(ap, fmt);
+    tr("V %s %" PRIu64 " %a ", family, evno, cmb_time());
+    vfprintf(tf, fmt, ap);
+    tr("\n");
+    va_end(ap);
+}
+
+static void snapshot(void)
+{
+    char key[40], buf[96];
+    snaplen = 0;
+    snapbuf[0] = '\0';
+    for (int k = 0; k < nobjs; k++) {
+        struct sobj *o = &objs[k];
+        switch (o->kind) {
+        case O_RES: {
+            struct cmb_resource *r = o->ptr;
+            size_t n = 0; buf[0] = '\0';
+            uint64_t sum = 0;
+            for (int p = 0; p < nprocs; p++) {
+                if (procs[p].is_tap) continue;
+                const uint64_t h = cmb_resource_held_by_process(r, procs[p].p);
+                if (h) { n += (size_t)snprintf(buf + n, sizeof buf - n, "%s%d", n ? "," : "", p); sum += h; }
+            }
+            snprintf(key, sizeof key, "%s.h", o->name); snap_put(key, "%s", n ? buf : "-");
+            snprintf(key, sizeof key, "%s.u", o->name); snap_put(key, "%" PRIu64, cmb_resource_in_use(r));
+            snprintf(key, sizeof key, "%s.a", o->name); snap_put(key, "%" PRIu64, cmb_resource_available(r));
+            if (cmb_resource_in_use(r) + cmb_resource_available(r) != 1u) {
+                vline("C05", "%s in_use %" PRIu64 " + available %" PRIu64 " != 1", o->name,
+                      cmb_resource_in_use(r), cmb_resource_available(r));
+            }
+            break;
+        }
+        case O_POOL: {
+            struct cmb_resourcepool *pl = o->ptr;
+            size_t n = 0; buf[0] = '\0';
+            uint64_t sum = 0;
+            for (int p = 0; p < nprocs; p++) {
+                if (procs[p].is_tap) continue;
+                const uint64_t h = cmb_resourcepool_held_by_process(pl, procs[p].p);
+                if (h) {
+                    if (n < sizeof buf - 24) n += (size_t)snprintf(buf + n, sizeof buf - n, "%s%d:%" PRIu64, n ? "," : "", p, h);
+                    sum += h;
+                }
+            }
+            snprintf(key, sizeof key, "%s.h", o->name); snap_put(key, "%s", n ? buf : "-");
+            snprintf(key, sizeof key, "%s.u", o->name); snap_put(key, "%" PRIu64, cmb_resourcepool_in_use(pl));
+            snprintf(key, sizeof key, "%s.a", o->name); snap_put(key, "%" PRIu64, cmb_resourcepool_available(pl));
+            if (cmb_resourcepool_in_use(pl) != sum) {
+                vline("C07", "%s in_use %" PRIu64 " != sum of held_by_process %" PRIu64, o->name,
+                      cmb_resourcepool_in_use(pl), sum);
+            }
+            if (cmb_resourcepool_in_use(pl) > o->cap) {
+                vline("C07", "%s in_use %" PRIu64 " > capacity %" PRIu64, o->name, cmb_resourcepool_in_use(pl), o->cap);
+            }
+            if (cmb_resourcepool_available(pl) != o->cap - cmb_resourcepool_in_use(pl)) {
+                vline("C07", "%s available %" PRIu64 " != capacity - in_use", o->name, cmb_resourcepool_available(pl));
+            }
+            break;
+        }
+        case O_BUF: {
+            struct cmb_buffer *b = o->ptr;
+            snprintf(key, sizeof key, "%s.l", o->name); snap_put(key, "%" PRIu64, cmb_buffer_level(b));
+            snprintf(key, sizeof key, "%s.s", o->name); snap_put(key, "%" PRIu64, cmb_buffer_space(b));
+            if (cmb_buffer_level(b) > o->cap) vline("C11", "%s level %" PRIu64 " > capacity", o->name, cmb_buffer_level(b));
+            if (cmb_buffer_space(b) != o->cap - cmb_buffer_level(b)) vline("C11", "%s space != capacity - level", o->name);
+            break;
+        }
+        case O_OQ: {
+            struct cmb_objectqueue *q = o->ptr;
+            snprintf(key, sizeof key, "%s.n", o->name); snap_put(key, "%" PRIu64, cmb_objectqueue_length(q));
+            snprintf(key, sizeof key, "%s.s", o->name); snap_put(key, "%" PRIu64, cmb_objectqueue_space(q));
+            if (cmb_objectqueue_length(q) > o->cap) vline("C12", "%s length %" PRIu64 " > capacity", o->name, cmb_objectqueue_length(q));
+            break;
+        }
+        case O_PQ: {
+            struct cmb_priorityqueue *q = o->ptr;
+            snprintf(key, sizeof key, "%s.n", o->name); snap_put(key, "%" PRIu64, cmb_priorityqueue_length(q));
+            snprintf(key, sizeof key, "%s.s", o->name); snap_put(key, "%" PRIu64, cmb_priorityqueue_space(q));
+            if (cmb_priorityqueue_length(q) > o->cap) vline("C12", "%s length %" PRIu64 " > capacity", o->name, cmb_priorityqueue_length(q));
+            break;
+        }
+        case O_COND:
+            break;
+        }
+    }
+    for (int p = 0; p < nprocs; p++) {
+        struct sproc *sp = &procs[p];
+        if (sp->is_tap) continue;
+        const enum cmb_process_state st = cmb_process_status(sp->p);
+        snprintf(key, sizeof key, "p%d.st", p);
+        snap_put(key, "%c", st == CMB_PROCESS_CREATED ? 'C' : (st == CMB_PROCESS_RUNNING ? 'R' : 'F'));
+        snprintf(key, sizeof key, "p%d.pr", p); snap_put(key, "%" PRIi64, cmb_process_priority(sp->p));
+        snprintf(key, sizeof key, "p%d.ev", p);
+        snap_put(key, "%" PRIu64, cmb_event_pattern_count(CMB_ANY_ACTION, sp->p, CMB_ANY_OBJECT));
+        if (sp->amnt_active) { snprintf(key, sizeof key, "p%d.am", p); snap_put(key, "%" PRIu64, sp->amnt); }
+        if (st == CMB_PROCESS_FINISHED) {
+            snprintf(key, sizeof key, "p%d.xv", p);
+            snap_put(key, "%" PRIi64, (int64_t)(intptr_t)cmb_process_exit_value(sp->p));
+        }
+    }
+    snap_put("q", "%" PRIu64, cmb_event_queue_count());
+    tr("S %" PRIu64 " %a%s\n", evno, cmb_time(), snapbuf);
+}
+
+/* ------------------------------------------------------------ actions -- */
+
+static void user_event_action(void *subj, void *obj)
+{
+    (void)obj;
+    tr("U %" PRIu64 " %" PRIu64 " %a %d\n", ++seqno, evno, cmb_time(), (int)(intptr_t)subj);
+}
+
+static void filler_action(void *subj, void *obj) { (void)subj; (void)obj; }
+
+static void learn_losses(const int pid)
+{
+    struct sproc *sp = &procs[pid];
+    for (int k = 0; k < nobjs; k++) {
+        if (objs[k].kind == O_RES && sp->mine_res[k]
+            && cmb_resource_held_by_process(objs[k].ptr, sp->p) == 0u) {
+            sp->mine_res[k] = false;
+            tr("L %" PRIu64 " %" PRIu64 " %a %d %s 1\n", ++seqno, evno, cmb_time(), pid, objs[k].name);
+        }
+        else if (objs[k].kind == O_POOL && sp->mine_pool[k] > 0u) {
+            const uint64_t h = cmb_resourcepool_held_by_process(objs[k].ptr, sp->p);
+            if (h < sp->mine_pool[k]) {
+                tr("L %" PRIu64 " %" PRIu64 " %a %d %s %" PRIu64 "\n", ++seqno, evno, cmb_time(), pid,
+                   objs[k].name, sp->mine_pool[k] - h);
+                sp->mine_pool[k] = h;
+            }
+        }
+    }
+}
+
+/*
+ * Non-blocking operations, usable from a process script (pid >= 0) and from a
+ * dispatcher-level command (pid == -1). Returns false if skipped.
+ */
+static bool do_nonblocking(const struct sop *o, const int pid, const int opi, const char hdr)
+{
+#define SKIP(reason) do { tr("K %" PRIu64 " %" PRIu64 " %a %d %d %s %s\n", ++seqno, evno, cmb_time(), pid, opi, \
+                             opnames[o->code], reason); return false; } while (0)
+#define CALLHDR() tr("%c %" PRIu64 " %" PRIu64 " %a %d %d %s", hdr, ++seqno, evno, cmb_time(), pid, opi, opnames[o->code])
+    struct sproc *me = (pid >= 0) ? &procs[pid] : NULL;
+    struct sproc *tg = (o->tgt >= 0 && o->tgt < nuserprocs) ? &procs[o->tgt] : NULL;
+    switch (o->code) {
+    case OP_RELEASE: {
+        if (me == NULL) SKIP("not-a-process");
+        struct cmb_resource *r = objs[o->obj].ptr;
+        const bool lib = cmb_resource_held_by_process(r, me->p) != 0u;
+        if (!me->mine_res[o->obj]) SKIP(lib ? "library-says-held-but-never-acquired" : "not-held");
+        if (!lib) { me->mine_res[o->obj] = false; SKIP("lost-without-notice"); }
+        CALLHDR(); tr(" %s\n", objs[o->obj].name);
+        cmb_resource_release(r);
+        me->mine_res[o->obj] = false;
+        log_ground_for_object(o->obj, "after-release");
+        return true;
+    }
+    case OP_PREL: {
+        if (me == NULL) SKIP("not-a-process");
+        struct cmb_resourcepool *pl = objs[o->obj].ptr;
+        const uint64_t lib = cmb_resourcepool_held_by_process(pl, me->p);
+        uint64_t n = o->u1;
+        if (me->mine_pool[o->obj] == 0u) SKIP(lib ? "library-says-held-but-never-acquired" : "not-held");
+        if (lib < me->mine_pool[o->obj]) { me->mine_pool[o->obj] = lib; SKIP("lost-without-notice"); }
+        if (n > me->mine_pool[o->obj]) n = me->mine_pool[o->obj];
+        if (n == 0u) SKIP("zero-amount");
+        CALLHDR(); tr(" %s %" PRIu64 "\n", objs[o->obj].name, n);
+        cmb_resourcepool_release(pl, n);
+        me->mine_pool[o->obj] -= n;
+        log_ground_for_object(o->obj, "after-release");
+        return true;
+    }
+    case OP_TIMER_ADD: case OP_TIMER_SET: {
+        if (me == NULL) SKIP("not-a-process");
+        if (o->i1 == 0) SKIP("signal-0");
+        const uint64_t h = (o->code == OP_TIMER_ADD) ? cmb_process_timer_add(me->p, o->d1, o->i1)
+                                                     : cmb_process_timer_set(me->p, o->d1, o->i1);
+        if (me->ntimers == me->captimers) {
+            me->captimers = me->captimers ? me->captimers * 2 : 16;
+            me->timers = realloc(me->timers, (size_t)me->captimers * sizeof *me->timers);
+        }
+        me->timers[me->ntimers++] = h;
+        CALLHDR(); tr(" %a %" PRIi64 " -> %" PRIu64 "\n", o->d1, o->i1, h);
+        return true;
+    }
+    case OP_TIMER_CANCEL: {
+        if (me == NULL) SKIP("not-a-process");
+        if (me->ntimers == 0) SKIP("no-timer");
+        const uint64_t h = me->timers[(uint64_t)o->i1 % (uint64_t)me->ntimers];
+        const bool r = cmb_process_timer_cancel(me->p, h);
+        CALLHDR(); tr(" %" PRIu64 " -> %d\n", h, r ? 1 : 0);
+        return true;
+    }
+    case OP_TIMERS_CLEAR:
+        if (me == NULL) SKIP("not-a-process");
+        CALLHDR(); tr("\n");
+        cmb_process_timers_clear(me->p);
+        return true;
+    case OP_KCANCEL: case OP_KREPRIO: case OP_KPOS: {
+        struct sobj *ob = &objs[o->obj];
+        struct cmb_priorityqueue *q = ob->ptr;
+        if (ob->nh == 0) SKIP("no-handle");
+        const uint64_t h = ob->handles[(uint64_t)o->i1 % (uint64_t)ob->nh];
+        if (o->code == OP_KCANCEL) {
+            const bool r = cmb_priorityqueue_cancel(q, h);
+            CALLHDR(); tr(" %s %" PRIu64 " -> %d\n", ob->name, h, r ? 1 : 0);
+            
+        }
+        else if (o->code == OP_KREPRIO) {
+            if (!cmi_hashheap_is_enqueued(&q->queue, h)) SKIP("handle-not-queued");
+            cmb_priorityqueue_reprioritize(q, h, o->i2);
+            CALLHDR(); tr(" %s %" PRIu64 " %" PRIi64 "\n", ob->name, h, o->i2);
+        }
+        else {
+            const uint64_t r = cmb_priorityqueue_position(q, h);
+            CALLHDR(); tr(" %s %" PRIu64 " -> %" PRIu64 "\n", ob->name, h, r);
+        }
+        return true;
+    }
+    case OP_OPOS: {
+        const uint64_t r = cmb_objectqueue_position(objs[o->obj].ptr, (void *)(uintptr_t)o->i1);
+        CALLHDR(); tr(" %s %" PRIi64 " -> %" PRIu64 "\n", objs[o->obj].name, o->i1, r);
+        return true;
+    }
+    case OP_CSIGNAL: {
+        log_ground(o->obj, "explicit", "-");
+        CALLHDR(); tr(" %s\n", objs[o->obj].name);
+        const bool r = cmb_condition_signal(objs[o->obj].ptr);
+        tr("R %" PRIu64 " %" PRIu64 " %a %d %d %d\n", ++seqno, evno, cmb_time(), pid, opi, r ? 1 : 0);
+        return true;
+    }
+    case OP_CCANCEL: case OP_CREMOVE: {
+        if (tg == NULL) SKIP("no-target");
+        CALLHDR(); tr(" %s %d", objs[o->obj].name, o->tgt);
+        const bool r = (o->code == OP_CCANCEL) ? cmb_condition_cancel(objs[o->obj].ptr, tg->p)
+                                               : cmb_condition_remove(objs[o->obj].ptr, tg->p);
+        tr(" -> %d\n", r ? 1 : 0);
+        return true;
+    }
+    case OP_CTRSET:
+        CALLHDR(); tr(" %d %" PRIi64 "\n", o->obj, o->i1);
+        counters[o->obj % MAXCTR] = o->i1;
+        return true;
+    case OP_INTERRUPT: {
+        if (tg == NULL) SKIP("no-target");
+        if (o->i1 == 0) SKIP("signal-0");
+        if (cmb_process_status(tg->p) != CMB_PROCESS_RUNNING) SKIP("target-not-running");
+        CALLHDR(); tr(" %d %" PRIi64 " %" PRIi64 "\n", o->tgt, o->i1, o->i2);
+        cmb_process_interrupt(tg->p, o->i1, o->i2);
+        return true;
+    }
+    case OP_RESUME: {
+        if (tg == NULL) SKIP("no-target");
+        if (cmb_process_status(tg->p) != CMB_PROCESS_RUNNING) SKIP("target-not-running");
+        if (tg->blocked_op < 0 || tg->blocked_code != OP_YIELD) SKIP("target-not-in-yield");
+        if (o->tgt == pid) SKIP("self");
+        if (o->i1 == 0 && cmb_event_pattern_count(CMB_ANY_ACTION, tg->p, CMB_ANY_OBJECT) != 0u) SKIP("target-has-pending-events");
+        CALLHDR(); tr(" %d %" PRIi64 "\n", o->tgt, o->i1);
+        cmb_process_resume(tg->p, o->i1);
+        return true;
+    }
+    case OP_STOP: {
+        if (tg == NULL) SKIP("no-target");
+        const bool running = cmb_process_status(tg->p) == CMB_PROCESS_RUNNING;
+        bool held[MAXOBJ] = { false };
+        for (int k = 0; k < nobjs; k++) {
+            if (objs[k].kind == O_RES) held[k] = cmb_resource_held_by_process(objs[k].ptr, tg->p) != 0u;
+            else if (objs[k].kind == O_POOL) held[k] = cmb_resourcepool_held_by_process(objs[k].ptr, tg->p) != 0u;
+        }
+        CALLHDR(); tr(" %d %" PRIi64 " running=%d\n", o->tgt, o->i1, running ? 1 : 0);
+        if (o->tgt == pid) {
+            /* stopping oneself does not return */
+            me->blocked_op = -1;
+        }
+        cmb_process_stop(tg->p, (void *)(intptr_t)o->i1);
+        if (running) {
+            tg->blocked_op = -1;
+            tg->amnt_active = false;
+            for (int k = 0; k < nobjs; k++) if (held[k]) log_ground_for_object(k, "after-release");
+        }
+        return true;
+    }
+    case OP_SETPRIO:
+        if (tg == NULL) SKIP("no-target");
+        CALLHDR(); tr(" %d %" PRIi64 "\n", o->tgt, o->i1);
+        cmb_process_priority_set(tg->p, o->i1);
+        return true;
+    case OP_START: {
+        if (tg == NULL) SKIP("no-target");
+        if (cmb_process_status(tg->p) == CMB_PROCESS_RUNNING) SKIP("target-running");
+        if (cmb_event_pattern_count(CMB_ANY_ACTION, tg->p, CMB_ANY_OBJECT) != 0u) SKIP("start-already-pending");
+        CALLHDR(); tr(" %d\n", o->tgt);
+        cmb_process_start(tg->p);
+        return true;
+    }
+    case OP_USCHED: {
+        if (nuevs == capuevs) {
+            capuevs = capuevs ? capuevs * 2 : 32;
+            uevs = realloc(uevs, (size_t)capuevs * sizeof *uevs);
+        }
+        const uint64_t h = cmb_event_schedule(user_event_action, (void *)(intptr_t)nuevs, NULL,
+                                              cmb_time() + o->d1, o->i1);
+        uevs[nuevs].handle = h;
+        CALLHDR(); tr(" %d %a %" PRIi64 " -> %" PRIu64 "\n", nuevs, cmb_time() + o->d1, o->i1, h);
+        nuevs++;
+        return true;
+    }
+    case OP_UCANCEL: case OP_URESCHED: {
+        if (nuevs == 0) SKIP("no-user-event");
+        const int k = (int)((uint64_t)o->i1 % (uint64_t)nuevs);
+        if (o->code == OP_UCANCEL) {
+            const bool r = cmb_event_cancel(uevs[k].handle);
+            CALLHDR(); tr(" %d -> %d\n", k, r ? 1 : 0);
+        }
+        else {
+            if (!cmb_event_is_scheduled(uevs[k].handle)) SKIP("not-scheduled");
+            cmb_event_reschedule(uevs[k].handle, cmb_time() + o->d1);
+            CALLHDR(); tr(" %d %a\n", k, cmb_time() + o->d1);
+        }
+        return true;
+    }
+    case OP_REC_ON: case OP_REC_OFF: {
+        const bool on = (o->code == OP_REC_ON);
+        if (objs[o->obj].kind == O_COND) SKIP("not-recordable");
+        if (objs[o->obj].recording == on) SKIP("already");
+        rec_switch(o->obj, on);
+        CALLHDR(); tr(" %s n=%" PRIu64 " val=%a\n", objs[o->obj].name,
+                      cmb_timeseries_count(history_of(o->obj)), current_value(o->obj));
+        return true;
+    }
+    case OP_FILL_TO: {
+        /* bring the event queue to exactly (i1 - i2) entries with far-future fillers */
+        const uint64_t want = (uint64_t)(o->i1 - o->i2);
+        uint64_t added = 0;
+        while (cmb_event_queue_count() < want && added < 100000u) {
+            (void)cmb_event_schedule(filler_action, NULL, NULL, 1.0e9 + (double)added, 0);
+            added++;
+        }
+        CALLHDR(); tr(" %" PRIu64 " added=%" PRIu64 "\n", want, added);
+        return true;
+    }
+    case OP_NOP:
+        return true;
+    default:
+        SKIP("not-allowed-here");
+    }
+#undef SKIP
+#undef CALLHDR
+}
+
+static void cmd_action(void *subj, void *obj)
+{
+    (void)obj;
+    const struct scmd *c = subj;
+    (void)do_nonblocking(&c->op, -1, (int)(c - cmds), 'X');
+}
+
+static void start_cmd_action(void *subj, void *obj)
+{
+    (void)obj;
+    struct sproc *sp = subj;
+    /* same validity filter as the start op: somebody may have started it already */
+    if (cmb_process_status(sp->p) == CMB_PROCESS_RUNNING
+        || cmb_event_pattern_count(CMB_ANY_ACTION, sp->p, CMB_ANY_OBJECT) != 0u) {
+        tr("K %" PRIu64 " %" PRIu64 " %a -1 -1 start already-started\n", ++seqno, evno, cmb_time());
+        return;
+    }
+    tr("X %" PRIu64 " %" PRIu64 " %a -1 -1 start %d\n", ++seqno, evno, cmb_time(), (int)(sp - procs));
+    cmb_process_start(sp->p);
+}
+
+/* ---------------------------------------------------- process scripts -- */
+
+#define RET(sig) tr("R %" PRIu64 " %" PRIu64 " %a %d %d %" PRIi64, ++seqno, evno, cmb_time(), pid, sp->pc, (int64_t)(sig))
+
+static void *proc_main(struct cmb_process *me, void *ctx)
+{
+    struct sproc *sp = ctx;
+    const int pid = (int)(sp - procs);
+    sp->runs++;
+    sp->blocked_op = -1;
+    sp->amnt_active = false;
+    sp->ntimers = 0;
+    memset(sp->mine_res, 0, sizeof sp->mine_res);
+    memset(sp->mine_pool, 0, sizeof sp->mine_pool);
+    tr("B %" PRIu64 " %" PRIu64 " %a %d %d self=%d ctx=%d\n", ++seqno, evno, cmb_time(), pid, sp->runs,
+       me == sp->p ? 1 : 0, cmb_process_context(me) == ctx ? 1 : 0);
+
+    for (sp->pc = 0; sp->pc < sp->nops; sp->pc++) {
+        const struct sop *o = &sp->ops[sp->pc];
+        int64_t sig = 0;
+#define CALL() do { HDR('C', pid, sp->pc); tr(" %s", opnames[o->code]); } while (0)
+#define BLOCK_BEGIN() do { sp->blocked_op = sp->pc; sp->blocked_code = o->code; } while (0)
+#define BLOCK_END() do { sp->blocked_op = -1; if (sig == CMB_PROCESS_PREEMPTED) learn_losses(pid); } while (0)
+#define SKIPP(reason) do { tr("K %" PRIu64 " %" PRIu64 " %a %d %d %s %s\n", ++seqno, evno, cmb_time(), pid, sp->pc, \
+                              opnames[o->code], reason); goto next_op; } while (0)
+        switch (o->code) {
+        case OP_HOLD:
+            CALL(); tr(" %a\n", o->d1);
+            BLOCK_BEGIN(); sig = cmb_process_hold(o->d1); BLOCK_END();
+            RET(sig); tr("\n");
+            break;
+        case OP_YIELD:
+            CALL(); tr("\n");
+            BLOCK_BEGIN(); sig = cmb_process_yield(); BLOCK_END();
+            RET(sig); tr("\n");
+            break;
+        case OP_ACQUIRE: case OP_PREEMPT: {
+            struct cmb_resource *r = objs[o->obj].ptr;
+            if (sp->mine_res[o->obj]) SKIPP("already-held");
+            CALL(); tr(" %s\n", objs[o->obj].name);
+            BLOCK_BEGIN();
+            sig = (o->code == OP_ACQUIRE) ? cmb_resource_acquire(r) : cmb_resource_preempt(r);
+            if (sig == CMB_PROCESS_SUCCESS) sp->mine_res[o->obj] = true;
+            BLOCK_END();
+            RET(sig); tr("\n");
+            break;
+        }
+        case OP_PACQ: case OP_PPRE: {
+            struct cmb_resourcepool *pl = objs[o->obj].ptr;
+            uint64_t n = o->u1;
+            if (n == 0u) n = 1u;
+            if (n > objs[o->obj].cap) n = objs[o->obj].cap;
+            if (sp->mine_pool[o->obj] + n > objs[o->obj].cap) SKIPP("would-exceed-capacity");
+            const uint64_t lib = cmb_resourcepool_held_by_process(pl, sp->p);
+            if (lib != sp->mine_pool[o->obj]) { sp->mine_pool[o->obj] = lib; SKIPP("holding-disagrees"); }
+            CALL(); tr(" %s %" PRIu64 " have=%" PRIu64 "\n", objs[o->obj].name, n, sp->mine_pool[o->obj]);
+            BLOCK_BEGIN();
+            sig = (o->code == OP_PACQ) ? cmb_resourcepool_acquire(pl, n) : cmb_resourcepool_preempt(pl, n);
+            if (sig == CMB_PROCESS_SUCCESS) sp->mine_pool[o->obj] += n;
+            BLOCK_END();
+            RET(sig); tr(" held=%" PRIu64 "\n", cmb_resourcepool_held_by_process(pl, sp->p));
+            break;
+        }
+        case OP_BPUT: case OP_BGET: {
+            struct cmb_buffer *b = objs[o->obj].ptr;
+            if (o->code == OP_BPUT && o->u1 == 0u) SKIPP("zero-put");
+            sp->amnt = o->u1;
+            sp->amnt_active = true;
+            { char key[24]; snprintf(key, sizeof key, "p%d.am", pid); snap_invalidate(key); }
+            CALL(); tr(" %s %" PRIu64 "\n", objs[o->obj].name, o->u1);
+            BLOCK_BEGIN();
+            sig = (o->code == OP_BPUT) ? cmb_buffer_put(b, &sp->amnt) : cmb_buffer_get(b, &sp->amnt);
+            BLOCK_END();
+            sp->amnt_active = false;
+            RET(sig); tr(" %" PRIu64 "\n", sp->amnt);
+            if (sig == CMB_PROCESS_SUCCESS) log_ground_for_object(o->obj, (o->code == OP_BPUT) ? "after-put" : "after-get");
+            break;
+        }
+        case OP_OPUT: {
+            CALL(); tr(" %s %" PRIi64 "\n", objs[o->obj].name, o->i1);
+            BLOCK_BEGIN(); sig = cmb_objectqueue_put(objs[o->obj].ptr, (void *)(intptr_t)o->i1); BLOCK_END();
+            RET(sig); tr("\n");
+            if (sig == CMB_PROCESS_SUCCESS) log_ground_for_object(o->obj, "after-put");
+            break;
+        }
+        case OP_OGET: {
+            void *got = (void *)(intptr_t)-777;
+            CALL(); tr(" %s\n", objs[o->obj].name);
+            BLOCK_BEGIN(); sig = cmb_objectqueue_get(objs[o->obj].ptr, &got); BLOCK_END();
+            RET(sig); tr(" %" PRIi64 "\n", (int64_t)(intptr_t)got);
+            if (sig == CMB_PROCESS_SUCCESS) log_ground_for_object(o->obj, "after-get");
+            break;
+        }
+        case OP_KPUT: {
+            uint64_t h = 0;
+            CALL(); tr(" %s %" PRIi64 " %" PRIi64 "\n", objs[o->obj].name, o->i1, o->i2);
+            BLOCK_BEGIN();
+            sig = cmb_priorityqueue_put(objs[o->obj].ptr, (void *)(intptr_t)o->i1, o->i2, &h);
+            BLOCK_END();
+            if (sig == CMB_PROCESS_SUCCESS) {
+                struct sobj *ob = &objs[o->obj];
+                if (ob->nh == ob->caph) {
+                    ob->caph = ob->caph ? ob->caph * 2 : 16;
+                    ob->handles = realloc(ob->handles, (size_t)ob->caph * sizeof *ob->handles);
+                }
+                ob->handles[ob->nh++] = h;
+            }
+            RET(sig); tr(" %" PRIu64 "\n", h);
+            if (sig == CMB_PROCESS_SUCCESS) log_ground_for_object(o->obj, "after-put");
+            break;
+        }
+        case OP_KGET: {
+            void *got = (void *)(intptr_t)-777;
+            CALL(); tr(" %s\n", objs[o->obj].name);
+            BLOCK_BEGIN(); sig = cmb_priorityqueue_get(objs[o->obj].ptr, &got); BLOCK_END();
+            RET(sig); tr(" %" PRIi64 "\n", (int64_t)(intptr_t)got);
+            if (sig == CMB_PROCESS_SUCCESS) log_ground_for_object(o->obj, "after-get");
+            break;
+        }
+        case OP_CWAIT: {
+            sp->pred = o->pred;
+            sp->pred.pid = pid;
+            sp->pred.cond = o->obj;
+            CALL(); tr(" %s %d %d %" PRIi64 " now=%d\n", objs[o->obj].name, (int)o->pred.kind, o->pred.obj,
+                       o->pred.arg, eval_pred(&sp->pred) ? 1 : 0);
+            BLOCK_BEGIN(); sig = cmb_condition_wait(objs[o->obj].ptr, harness_demand, &sp->pred); BLOCK_END();
+            RET(sig); tr(" now=%d\n", eval_pred(&sp->pred) ? 1 : 0);
+            break;
+        }
+        case OP_WAIT_PROC: {
+            if (o->tgt < 0 || o->tgt >= nuserprocs || o->tgt == pid) SKIPP("bad-target");
+            const enum cmb_process_state st = cmb_process_status(procs[o->tgt].p);
+            CALL(); tr(" %d status=%d\n", o->tgt, (int)st);
+            BLOCK_BEGIN(); sig = cmb_process_wait_process(procs[o->tgt].p); BLOCK_END();
+            RET(sig); tr("\n");
+            break;
+        }
+        case OP_WAIT_EV: {
+            if (nuevs == 0) SKIPP("no-user-event");
+            const int k = (int)((uint64_t)o->i1 % (uint64_t)nuevs);
+            if (!cmb_event_is_scheduled(uevs[k].handle)) SKIPP("not-scheduled");
+            CALL(); tr(" %d\n", k);
+            BLOCK_BEGIN(); sig = cmb_process_wait_event(uevs[k].handle); BLOCK_END();
+            RET(sig); tr("\n");
+            break;
+        }
+        case OP_EXIT:
+            tr("Z %" PRIu64 " %" PRIu64 " %a %d exit %" PRIi64 "\n", ++seqno, evno, cmb_time(), pid, o->i1);
+            cmb_process_exit((void *)(intptr_t)o->i1);
+            break;      /* not reached */
+        case OP_RETURN:
+            tr("Z %" PRIu64 " %" PRIu64 " %a %d return %" PRIi64 "\n", ++seqno, evno, cmb_time(), pid, o->i1);
+            return (void *)(intptr_t)o->i1;
+        default:
+            (void)do_nonblocking(o, pid, sp->pc, 'C');
+            break;
+        }
+next_op: ;
+    }
+    tr("Z %" PRIu64 " %" PRIu64 " %a %d return 0\n", ++seqno, evno, cmb_time(), pid);
+    return NULL;
+}
+
+/* ------------------------------------------------------------ parsing -- */
+
+static int find_obj(const char *name)
+{
+    for (int k = 0; k < nobjs; k++) if (strcmp(objs[k].name, name) == 0) return k;
+    return -1;
+}
+
+static int parse_proc(const char *s)
+{
+    if (s[0] != 'p') return -1;
+    const int k = atoi(s + 1);
+    return (k >= 0 && k < MAXPROC) ? k : -1;
+}
+
+static int need_kind(const int obj, const enum okind kind) { return (obj >= 0 && objs[obj].kind == kind) ? 0 : -1; }
+
+/* parse "name args.." into *o; returns 0 or -1 */
+static int parse_op(char **tok, const int nt, struct sop *o)
+{
+    memset(o, 0, sizeof *o);
+    o->obj = -1; o->tgt = -1;
+    int code = -1;
+    for (int k = 0; k < OP__COUNT; k++) if (strcmp(tok[0], opnames[k]) == 0) code = k;
+    if (code < 0) return -1;
+    o->code = (enum opcode)code;
+#define NEED(n) do { if (nt < (n) + 1) return -1; } while (0)
+    switch (o->code) {
+    case OP_HOLD: NEED(1); o->d1 = cimx_dbl(tok[1]); if (!(o->d1 >= 0.0)) return -1; break;
+    case OP_YIELD: case OP_TIMERS_CLEAR: case OP_NOP: break;
+    case OP_ACQUIRE: case OP_PREEMPT: case OP_RELEASE:
+        NEED(1); o->obj = find_obj(tok[1]); if (need_kind(o->obj, O_RES)) return -1; break;
+    case OP_PACQ: case OP_PPRE: case OP_PREL:
+        NEED(2); o->obj = find_obj(tok[1]); if (need_kind(o->obj, O_POOL)) return -1; o->u1 = cimx_u64(tok[2]); break;
+    case OP_BPUT: case OP_BGET:
+        NEED(2); o->obj = find_obj(tok[1]); if (need_kind(o->obj, O_BUF)) return -1; o->u1 = cimx_u64(tok[2]); break;
+    case OP_OPUT: case OP_OPOS:
+        NEED(2); o->obj = find_obj(tok[1]); if (need_kind(o->obj, O_OQ)) return -1; o->i1 = cimx_i64(tok[2]); break;
+    case OP_OGET: NEED(1); o->obj = find_obj(tok[1]); if (need_kind(o->obj, O_OQ)) return -1; break;
+    case OP_KPUT:
+        NEED(3); o->obj = find_obj(tok[1]); if (need_kind(o->obj, O_PQ)) return -1;
+        o->i1 = cimx_i64(tok[2]); o->i2 = cimx_i64(tok[3]); break;
+    case OP_KGET: NEED(1); o->obj = find_obj(tok[1]); if (need_kind(o->obj, O_PQ)) return -1; break;
+    case OP_KCANCEL: case OP_KPOS:
+        NEED(2); o->obj = find_obj(tok[1]); if (need_kind(o->obj, O_PQ)) return -1; o->i1 = cimx_i64(tok[2]); break;
+    case OP_KREPRIO:
+        NEED(3); o->obj = find_obj(tok[1]); if (need_kind(o->obj, O_PQ)) return -1;
+        o->i1 = cimx_i64(tok[2]); o->i2 = cimx_i64(tok[3]); break;
+    case OP_CWAIT: {
+        NEED(4); o->obj = find_obj(tok[1]); if (need_kind(o->obj, O_COND)) return -1;
+        static const char *const pk[] = { "false", "true", "ctr", "resfree", "poolavail", "buflevel", "qlen" };
+        int kind = -1;
+        for (int k = 0; k < 7; k++) if (strcmp(tok[2], pk[k]) == 0) kind = k;
+        if (kind < 0) return -1;
+        o->pred.kind = (enum predkind)kind;
+        o->pred.arg = cimx_i64(tok[4]);
+        if (kind == PR_CTR) o->pred.obj = (int)(cimx_u64(tok[3]) % MAXCTR);
+        else if (kind >= PR_RESFREE) {
+            o->pred.obj = find_obj(tok[3]);
+            if (o->pred.obj < 0) return -1;
+            const enum okind ok = objs[o->pred.obj].kind;
+            if (kind == PR_RESFREE && ok != O_RES) return -1;
+            if (kind == PR_POOLAVAIL && ok != O_POOL) return -1;
+            if (kind == PR_BUFLEVEL && ok != O_BUF) return -1;
+            if (kind == PR_QLEN && ok != O_OQ && ok != O_PQ) return -1;
+        }
+        break;
+    }
+    case OP_WAIT_PROC: case OP_START: NEED(1); o->tgt = parse_proc(tok[1]); if (o->tgt < 0) return -1; break;
+    case OP_WAIT_EV: case OP_TIMER_CANCEL: case OP_UCANCEL: NEED(1); o->i1 = cimx_i64(tok[1]); break;
+    case OP_TIMER_ADD: case OP_TIMER_SET:
+        NEED(2); o->d1 = cimx_dbl(tok[1]); o->i1 = cimx_i64(tok[2]); if (!(o->d1 >= 0.0)) return -1; break;
+    case OP_CSIGNAL: NEED(1); o->obj = find_obj(tok[1]); if (need_kind(o->obj, O_COND)) return -1; break;
+    case OP_CCANCEL: case OP_CREMOVE:
+        NEED(2); o->obj = find_obj(tok[1]); if (need_kind(o->obj, O_COND)) return -1;
+        o->tgt = parse_proc(tok[2]); if (o->tgt < 0) return -1; break;
+    case OP_CTRSET: NEED(2); o->obj = (int)(cimx_u64(tok[1]) % MAXCTR); o->i1 = cimx_i64(tok[2]); break;
+    case OP_INTERRUPT:
+        NEED(3); o->tgt = parse_proc(tok[1]); if (o->tgt < 0) return -1;
+        o->i1 = cimx_i64(tok[2]); o->i2 = cimx_i64(tok[3]); break;
+    case OP_RESUME: case OP_STOP: case OP_SETPRIO:
+        NEED(2); o->tgt = parse_proc(tok[1]); if (o->tgt < 0) return -1; o->i1 = cimx_i64(tok[2]); break;
+    case OP_USCHED: NEED(2); o->d1 = cimx_dbl(tok[1]); o->i1 = cimx_i64(tok[2]); if (!(o->d1 >= 0.0)) return -1; break;
+    case OP_URESCHED: NEED(2); o->i1 = cimx_i64(tok[1]); o->d1 = cimx_dbl(tok[2]); if (!(o->d1 >= 0.0)) return -1; break;
+    case OP_REC_ON: case OP_REC_OFF: NEED(1); o->obj = find_obj(tok[1]); if (o->obj < 0) return -1; break;
+    case OP_FILL_TO: NEED(2); o->i1 = cimx_i64(tok[1]); o->i2 = cimx_i64(tok[2]); break;
+    case OP_EXIT: case OP_RETURN: NEED(1); o->i1 = cimx_i64(tok[1]); break;
+    default: return -1;
+    }
+#undef NEED
+    return 0;
+}
+
+static int parse_side(char *s, int *obj, int *side)
+{
+    *side = 0;
+    char *dot = strchr(s, '.');
+    if (dot) {
+        *dot = '\0';
+        *side = (strcmp(dot + 1, "rear") == 0 || strcmp(dot + 1, "1") == 0) ? 1 : 0;
+    }
+    *obj = find_obj(s);
+    if (*obj < 0) return -1;
+    const enum okind k = objs[*obj].kind;
+    if (*side == 1 && (k == O_RES || k == O_POOL || k == O_COND)) return -1;
+    return 0;
+}
+
+static int parse_case(char *text)
+{
+    char *cursor = text, *line, *tok[16];
+    int curproc = -1;
+    while ((line = cimx_next_line(&cursor)) != NULL) {
+        const int nt = cimx_split(line, tok, 16);
+        if (nt == 0) continue;
+        if (strcmp(tok[0], "start") == 0 && nt >= 2) { start_time = cimx_dbl(tok[1]); continue; }
+        if (strcmp(tok[0], "seed") == 0) continue;
+        static const char *const kinds[] = { "res", "pool", "buf", "oq", "pq", "cond" };
+        int kind = -1;
+        for (int k = 0; k < 6; k++) if (strcmp(tok[0], kinds[k]) == 0) kind = k;
+        if (kind >= 0) {
+            if (nt < 2 || nobjs == MAXOBJ) return -1;
+            struct sobj *o = &objs[nobjs];
+            memset(o, 0, sizeof *o);
+            o->kind = (enum okind)kind;
+            snprintf(o->name, sizeof o->name, "%s", tok[1]);
+            o->cap = (nt >= 3) ? cimx_u64(tok[2]) : 1u;
+            if (o->cap == 0u) return -1;
+            nobjs++;
+            continue;
+        }
+        if (strcmp(tok[0], "observe") == 0) {
+            /* observe C0 R0 [subscribe] | observe C0 B0.rear */
+            if (nt < 3 || nlinks == 64) return -1;
+            struct obslink *l = &links[nlinks];
+            l->cond = find_obj(tok[1]);
+            if (need_kind(l->cond, O_COND)) return -1;
+            if (parse_side(tok[2], &l->obj, &l->side)) return -1;
+            if (l->obj == l->cond) return -1;
+            if (objs[l->obj].kind == O_COND) return -1;          /* no cycles: conditions observe objects only */
+            l->via_subscribe = (nt >= 4 && strcmp(tok[3], "subscribe") == 0);
+            nlinks++;
+            continue;
+        }
+        if (strcmp(tok[0], "record") == 0) {
+            if (nt < 2) return -1;
+            const int ob = find_obj(tok[1]);
+            if (ob < 0 || objs[ob].kind == O_COND) return -1;
+            objs[ob].recording = true;      /* switched on at setup */
+            continue;
+        }
+        if (strcmp(tok[0], "proc") == 0) {
+            /* proc p0 prio N start T [sprio N] */
+            if (nt < 6 || nprocs == MAXPROC) return -1;
+            if (parse_proc(tok[1]) != nprocs) return -1;
+            struct sproc *sp = &procs[nprocs];
+            memset(sp, 0, sizeof *sp);
+            snprintf(sp->name, sizeof sp->name, "%s", tok[1]);
+            sp->prio0 = cimx_i64(tok[3]);
+            sp->start = (strcmp(tok[5], "never") == 0) ? -1.0 : cimx_dbl(tok[5]);
+            sp->start_prio = (nt >= 8) ? cimx_i64(tok[7]) : 0;
+            sp->blocked_op = -1;
+            curproc = nprocs++;
+            continue;
+        }
+        if (strcmp(tok[0], "op") == 0) {
+            if (curproc < 0 || nt < 2) return -1;
+            struct sproc *sp = &procs[curproc];
+            if (sp->nops == sp->capops) {
+                sp->capops = sp->capops ? sp->capops * 2 : 32;
+                sp->ops = realloc(sp->ops, (size_t)sp->capops * sizeof *sp->ops);
+            }
+            if (parse_op(tok + 1, nt - 1, &sp->ops[sp->nops]) != 0) return -1;
+            sp->nops++;
+            continue;
+        }
+        if (strcmp(tok[0], "at") == 0) {
+            if (nt < 4) return -1;
+            if (ncmds == capcmds) {
+                capcmds = capcmds ? capcmds * 2 : 32;
+                cmds = realloc(cmds, (size_t)capcmds * sizeof *cmds);
+            }
+            struct scmd *c = &cmds[ncmds];
+            c->t = cimx_dbl(tok[1]);
+            c->prio = cimx_i64(tok[2]);
+            if (parse_op(tok + 3, nt - 3, &c->op) != 0) return -1;
+            ncmds++;
+            continue;
+        }
+        return -1;
+    }
+    return 0;
+}
+
+/* ---------------------------------------------------------------- run -- */
+
+static void create_objects(void)
+{
+    for (int k = 0; k < nobjs; k++) {
+        struct sobj *o = &objs[k];
+        switch (o->kind) {
+        case O_RES: o->ptr = cmb_resource_create(); cmb_resource_initialize(o->ptr, o->name); o->cap = 1u; break;
+        case O_POOL: o->ptr = cmb_resourcepool_create(); cmb_resourcepool_initialize(o->ptr, o->name, o->cap); break;
+        case O_BUF: o->ptr = cmb_buffer_create(); cmb_buffer_initialize(o->ptr, o->name, o->cap); break;
+        case O_OQ: o->ptr = cmb_objectqueue_create(); cmb_objectqueue_initialize(o->ptr, o->name, o->cap); break;
+        case O_PQ: o->ptr = cmb_priorityqueue_create(); cmb_priorityqueue_initialize(o->ptr, o->name, o->cap); break;
+        case O_COND: o->ptr = cmb_condition_create(); cmb_condition_initialize(o->ptr, o->name); break;
+        }
+    }
+    /* observers: the condition first, then one tap per observed guard */
+    for (int l = 0; l < nlinks; l++) {
+        struct cmb_condition *cv = objs[links[l].cond].ptr;
+        struct cmb_resourceguard *g = guard_of(links[l].obj, links[l].side);
+        if (links[l].via_subscribe) cmb_condition_subscribe(cv, g);
+        else cmb_resourceguard_register(g, &cv->guard);
+    }
+    for (int l = 0; l < nlinks; l++) {
+        bool have = false;
+        for (int t = 0; t < ntaps; t++) if (taps[t].obj == links[l].obj && taps[t].side == links[l].side) have = true;
+        if (have || ntaps == 32 || nprocs == MAXPROC) continue;
+        struct tap *tp = &taps[ntaps++];
+        tp->obj = links[l].obj;
+        tp->side = links[l].side;
+        tp->cv = cmb_condition_create();
+        cmb_condition_initialize(tp->cv, "tap");
+        cmb_resourceguard_register(guard_of(tp->obj, tp->side), &tp->cv->guard);
+        struct sproc *sp = &procs[nprocs];
+        memset(sp, 0, sizeof *sp);
+        snprintf(sp->name, sizeof sp->name, "tap%d", ntaps - 1);
+        sp->is_tap = true;
+        sp->blocked_op = -1;
+        sp->p = cmb_process_create();
+        cmb_process_initialize(sp->p, sp->name, tap_main, tp, INT64_MAX);
+        tp->pid = nprocs++;
+    }
+}
+
+int mode_sim(char *text, FILE *trace)
+{
+    tf = trace;
+    cmb_logger_flags_off(CMB_LOGGER_INFO | CMB_LOGGER_WARNING);
+    if (parse_case(text) != 0) {
+        fprintf(trace, "F parse error\n");
+        return CIMX_PARSE_ERROR;
+    }
+    cmb_event_queue_initialize(start_time);
+    const int nuser = nprocs;
+    nuserprocs = nprocs;
+    for (int k = 0; k < nuser; k++) {
+        struct sproc *sp = &procs[k];
+        sp->p = cmb_process_create();
+        cmb_process_initialize(sp->p, sp->name, proc_main, sp, sp->prio0);
+    }
+    create_objects();
+    for (int k = 0; k < nobjs; k++) {
+        if (objs[k].recording) {
+            objs[k].recording = false;
+            rec_switch(k, true);
+            tr("X 0 0 %a -1 -1 rec_on %s n=%" PRIu64 " val=%a\n", cmb_time(), objs[k].name,
+               cmb_timeseries_count(history_of(k)), current_value(k));
+        }
+    }
+    /* taps start first (highest priority) so they wait before anything happens */
+    for (int k = nuser; k < nprocs; k++) cmb_process_start(procs[k].p);
+    for (int k = 0; k < nuser; k++) {
+        struct sproc *sp = &procs[k];
+        if (sp->start < 0.0) continue;
+        if (sp->start <= 0.0) cmb_process_start(sp->p);
+        else (void)cmb_event_schedule(start_cmd_action, sp, NULL, start_time + sp->start, sp->start_prio);
+    }
+    for (int k = 0; k < ncmds; k++) {
+        (void)cmb_event_schedule(cmd_action, &cmds[k], NULL, start_time + cmds[k].t, cmds[k].prio);
+    }
+    snapshot();
+    bool ceiling = false;
+    for (;;) {
+        evno++;
+        if (evno > EVENT_CEILING) { ceiling = true; break; }
+        if (!cmb_event_execute_next()) break;
+        snapshot();
+    }
+    if (ceiling) {
+        tr("V CEILING %" PRIu64 " %a event ceiling reached\n", evno, cmb_time());
+    }
+    else {
+        tr("Q %" PRIu64 " %a\n", evno, cmb_time());
+        for (int p = 0; p < nuser; p++) {
+            tr("W %d status=%d blocked=%d\n", p, (int)cmb_process_status(procs[p].p), procs[p].blocked_op);
+        }
+        /* recorded histories */
+        for (int k = 0; k < nobjs; k++) {
+            if (objs[k].kind == O_COND) continue;
+            struct cmb_timeseries *ts = history_of(k);
+            const uint64_t n = cmb_timeseries_count(ts);
+            if (n == 0u) continue;
+            tr("H %s %" PRIu64, objs[k].name, n);
+            for (uint64_t j = 0; j < n; j++) tr(" %a %a", ts->ds.xa[j], ts->ta[j]);
+            tr("\n");
+            if (n >= 2u) {
+                struct cmb_wtdsummary *ws = cmb_wtdsummary_create();
+                const uint64_t m = cmb_timeseries_summarize(ts, ws);
+                if (m >= 1u && ts->ta[n - 1u] > ts->ta[0]) tr("M %s %a\n", objs[k].name, cmb_wtdsummary_mean(ws));
+                cmb_wtdsummary_destroy(ws);
+            }
+        }
+    }
+    /* teardown through the public API: stop what is still running, drain, destroy */
+    tr("D\n");
+    fflush(tf);
+    in_teardown = true;
+    for (int p = 0; p < nprocs; p++) {
+        if (cmb_process_status(procs[p].p) == CMB_PROCESS_RUNNING) cmb_process_stop(procs[p].p, NULL);
+    }
+    if (!ceiling) {
+        uint64_t guard = 0;
+        while (guard++ < EVENT_CEILING && cmb_event_execute_next()) { }
+    }
+    cmb_event_queue_clear();
+    for (int p = 0; p < nprocs; p++) {
+        cmb_process_terminate(procs[p].p);
+        cmb_process_destroy(procs[p].p);
+    }
+    for (int k = 0; k < nobjs; k++) {
+        switch (objs[k].kind) {
+        case O_RES: cmb_resource_destroy(objs[k].ptr); break;
+        case O_POOL: cmb_resourcepool_destroy(objs[k].ptr); break;
+        case O_BUF: cmb_buffer_destroy(objs[k].ptr); break;
+        case O_OQ: cmb_objectqueue_destroy(objs[k].ptr); break;
+        case O_PQ: cmb_priorityqueue_destroy(objs[k].ptr); break;
+        case O_COND: cmb_condition_destroy(objs[k].ptr); break;
+        }
+    }
+    for (int t = 0; t < ntaps; t++) cmb_condition_destroy(taps[t].cv);
+    cmb_event_queue_terminate();
+    tr("N events=%" PRIu64 " ceiling=%d\n", evno, ceiling ? 1 : 0);
+    return CIMX_OK;
+}
